@@ -29,15 +29,17 @@ impl LiftingEnvironment {
     pub fn add_declaration(&mut self, declaration: &Declaration) { unimplemented!() }
 }
 // IR lifting of AST nodes (intermediate_representation/lifting.rs): opaque results (T3).
-// Assumed: lifting a statement that the CFG construction hands over never yields an ir::Statement::IfThenElse
-// (control statements are consumed by visit_statement itself) — not needed for the graph-shape invariant.
+// Assumed (T3): lifting a plain statement (not a block, loop, conditional or initialization block) never yields an
+// ir::Statement::IfThenElse — control statements are consumed by visit_statement itself.
 impl TryLift<()> for ast::Meta {
     type IR = Meta; type Error = IRError;
     #[verifier::external_body] fn try_lift(&self, context: (), reports: &mut ReportCollection) -> Result<Meta, IRError> { unimplemented!() }
 }
 impl TryLift<()> for ast::Statement {
     type IR = Statement; type Error = IRError;
-    #[verifier::external_body] fn try_lift(&self, context: (), reports: &mut ReportCollection) -> Result<Statement, IRError> { unimplemented!() }
+    #[verifier::external_body] fn try_lift(&self, context: (), reports: &mut ReportCollection) -> (r: Result<Statement, IRError>)
+        ensures r is Ok && is_plain(*self) ==> !is_branch(r->Ok_0)
+    { unimplemented!() }
 }
 impl TryLift<()> for ast::Expression {
     type IR = Expression; type Error = IRError;
